@@ -4,6 +4,8 @@ CONSTANTS NConns = 3
   Recover = TRUE
   RetryTemp = TRUE
   SequencedBad = FALSE
+  TLS = FALSE
+  HsInServe = TRUE
 INIT Init
 NEXT Next
 INVARIANTS FaultClosesOnlyItsConnection HealthyServed UndecodableReported ReportsAccounted NoDrop KeepsAccepting
